@@ -83,6 +83,19 @@ type Plan struct {
 }
 
 // Injected is one error handed to the parser by a block.
+// LateErr is an error whose text is completed after it was returned.
+type LateErr struct {
+	base string
+	done bool
+}
+
+func (e *LateErr) Error() string {
+	if e.done {
+		return e.base + "+completed"
+	}
+	return e.base
+}
+
 type Injected struct {
 	Seq  int // event sequence number
 	Site int
@@ -94,6 +107,7 @@ type Injected struct {
 
 // Ctx is the per-parse simulation context; it travels in globalStore["sim"].
 type Ctx struct {
+	late     []*LateErr
 	Plan     *Plan
 	Events   []Event
 	Injected []Injected
@@ -272,6 +286,11 @@ func event(gs map[string]any, kind byte, site, line, col, off int, text []byte, 
 	}
 	c.counts[site]++
 	n := c.counts[site]
+	// errors that are completed after they were returned: the next block does it
+	for _, l := range c.late {
+		l.done = true
+	}
+	c.late = nil
 	g, ok := gs["cnt"].(int)
 	if len(c.Events) > 0 && (!ok || g != len(c.Events)) {
 		c.Backward = true
@@ -315,6 +334,14 @@ func (c *Ctx) inject(site, n int, f *Fault) error {
 	case "err":
 		e := errors.New(fmt.Sprintf("E%d.%d", site, n))
 		c.Injected = append(c.Injected, Injected{Seq: len(c.Events) - 1, Site: site, N: n, Kind: f.Kind, Err: e, Msg: e.Error()})
+		return e
+	case "errlate":
+		// an error value that its author completes after returning it (an
+		// enclosing action fills in an index): the list element wraps the value,
+		// so it says what the value says when it is read
+		e := &LateErr{base: fmt.Sprintf("L%d.%d", site, n)}
+		c.late = append(c.late, e)
+		c.Injected = append(c.Injected, Injected{Seq: len(c.Events) - 1, Site: site, N: n, Kind: f.Kind, Err: e, Msg: e.base})
 		return e
 	case "errdup":
 		e := errors.New("DUP")
